@@ -4,7 +4,7 @@
    crate (process exit before the k-th I/O event, incl. between the index temp-file write, its
    fsync and the rename) judged by these acceptors. *)
 From W Require Import model.Base model.Engine model.EngineCfg spec.Queue spec.Crash proofs.CrashP proofs.EngineWF proofs.EngineInv proofs.EngineMain
-  proofs.EngineDisk proofs.EnginePos proofs.EngineNorm proofs.EngineReopen proofs.EngineC06 proofs.EngineALO2 proofs.EngineSince proofs.EngineSince2.
+  proofs.EngineDisk proofs.EnginePos proofs.EngineNorm proofs.EngineReopen proofs.EngineC06 proofs.EngineALO2 proofs.EngineSince proofs.EngineSince2 proofs.EngineCrash.
 
 Theorem c09_strict_acceptor_means : forall app deliv rec,
   c09_strict_one app deliv rec 0 = true -> outs_are (deliv ++ rec) app = true.
@@ -126,6 +126,58 @@ Example c09_witness_alo_bound :
   unread small_cfg (nrm false (get_ts (reopen small_cfg (exec (env_of small_cfg (ALO 3) Fd) init ops)) 1)) = [en 3 10; en 4 10].
 Proof. vm_compute. repeat split; reflexivity. Qed.
 
+(* StrictlyAtOnce, crash INSIDE a consuming read_next.  The only durable effect of a read is the index
+   persist: temp-file write, fsync, rename, directory fsync.  The rename is atomic, so a crash at any of
+   these points leaves the OLD or the NEW persisted position and nothing else changed: the crash image
+   is [reopen] of the state before the read ([s]) or of the state after it ([s']).  After ANY history
+   with restarts outside block-id drift ([outside_known], which needs no extra hypothesis for the state
+   after the read: a read does not change drift, id_drift_read):
+     old position: every topic, the read's topic included, is exactly where the ledger has it — the
+       entry in flight is delivered (again) to a consumer that never saw that read return;
+     new position: every other topic exactly where it was, the read's topic right behind the entry in
+       flight (or unchanged when nothing was unread).
+   Only the read in flight at the crash may go either way; nothing else is delivered twice, nothing is skipped. *)
+Theorem c09_strict_crash_inside_read : forall (c : Cfg) (be : backend) (ops : list op) (t : topic), cfg_ok c ->
+  N.of_nat (length (offered_all ops)) <= u64_max -> sum_len (offered_all ops) <= u64_max ->
+  outside_known (env_of c Strict be) init (ops ++ [OReopen]) = true ->
+  let s := exec (env_of c Strict be) init ops in
+  let s' := fst (step (env_of c Strict be) s (ORead t true)) in
+  let g := ledger_run [] (trace (env_of c Strict be) init ops) in
+  let d := l_del (lget g (t_id t)) in
+  let A := l_app (lget g (t_id t)) in
+  (forall t0 x, stream (get_ts (reopen c s) t0) = l_app (lget g t0) /\
+                unread c (nrm x (get_ts (reopen c s) t0)) = skipn (l_del (lget g t0)) (l_app (lget g t0))) /\
+  (forall t0 x, stream (get_ts (reopen c s') t0) = l_app (lget g t0) /\
+                (t0 <> t_id t -> unread c (nrm x (get_ts (reopen c s') t0)) = skipn (l_del (lget g t0)) (l_app (lget g t0))) /\
+                unread c (nrm x (get_ts (reopen c s') (t_id t))) = skipn (if (d <? length A)%nat then S d else d) A).
+Proof. exact crash_inside_read_strict. Qed.
+
+(* the same for a consuming batch read (one index persist behind everything it returns): the crash image
+   is the old position, or the position behind ALL entries the read returned — "the read in flight may
+   go either way, as a whole" (the gap parameter j = its size of the acceptor c09_strict_one) *)
+Theorem c09_strict_crash_inside_batch_read : forall (c : Cfg) (be : backend) (ops : list op) (t : topic) (maxb : N), cfg_ok c ->
+  N.of_nat (length (offered_all ops)) <= u64_max -> sum_len (offered_all ops) <= u64_max ->
+  outside_known (env_of c Strict be) init (ops ++ [OReopen]) = true ->
+  let s := exec (env_of c Strict be) init ops in
+  let s' := fst (step (env_of c Strict be) s (OBatchRead t maxb true None)) in
+  let g := ledger_run [] (trace (env_of c Strict be) init ops) in
+  exists os, snd (step (env_of c Strict be) s (OBatchRead t maxb true None)) = REntries os /\
+  (forall t0 x, stream (get_ts (reopen c s) t0) = l_app (lget g t0) /\
+                unread c (nrm x (get_ts (reopen c s) t0)) = skipn (l_del (lget g t0)) (l_app (lget g t0))) /\
+  (forall t0 x, stream (get_ts (reopen c s') t0) = l_app (lget g t0) /\
+                (t0 <> t_id t -> unread c (nrm x (get_ts (reopen c s') t0)) = skipn (l_del (lget g t0)) (l_app (lget g t0))) /\
+                unread c (nrm x (get_ts (reopen c s') (t_id t))) = skipn (l_del (lget g (t_id t)) + length os) (l_app (lget g (t_id t)))).
+Proof. exact crash_inside_batch_read_strict. Qed.
+
+(* non-vacuity: two entries, one consumed, the read of the second in flight at the crash *)
+Example c09_witness_crash_inside_read :
+  let ops := [OAppend tt (en 0 3000); OAppend tt (en 1 3000); ORead tt true] in
+  let s := exec (env_of small_cfg Strict Fd) init ops in
+  outside_known (env_of small_cfg Strict Fd) init (ops ++ [OReopen]) = true /\
+  unread small_cfg (nrm false (get_ts (reopen small_cfg s) 1)) = [en 1 3000] /\
+  unread small_cfg (nrm false (get_ts (reopen small_cfg (fst (step (env_of small_cfg Strict Fd) s (ORead tt true)))) 1)) = [].
+Proof. vm_compute. repeat split; reflexivity. Qed.
+
 Check c09_strict_acceptor_means : forall app deliv rec,
   c09_strict_one app deliv rec 0 = true -> outs_are (deliv ++ rec) app = true.
 Print Assumptions c09_strict_acceptor_means.
@@ -166,3 +218,18 @@ Check c09_alo_redelivery_bound : forall (c : Cfg) (n : N) (be : backend) (ops : 
               N.of_nat (l_del (lget g t) - k) < N.max n 1 /\
               unread c (nrm x (get_ts (reopen c s) t)) = skipn k (l_app (lget g t)).
 Print Assumptions c09_alo_redelivery_bound.
+Check c09_strict_crash_inside_read : forall (c : Cfg) (be : backend) (ops : list op) (t : topic), cfg_ok c ->
+  N.of_nat (length (offered_all ops)) <= u64_max -> sum_len (offered_all ops) <= u64_max ->
+  outside_known (env_of c Strict be) init (ops ++ [OReopen]) = true ->
+  let s := exec (env_of c Strict be) init ops in
+  let s' := fst (step (env_of c Strict be) s (ORead t true)) in
+  let g := ledger_run [] (trace (env_of c Strict be) init ops) in
+  let d := l_del (lget g (t_id t)) in
+  let A := l_app (lget g (t_id t)) in
+  (forall t0 x, stream (get_ts (reopen c s) t0) = l_app (lget g t0) /\
+                unread c (nrm x (get_ts (reopen c s) t0)) = skipn (l_del (lget g t0)) (l_app (lget g t0))) /\
+  (forall t0 x, stream (get_ts (reopen c s') t0) = l_app (lget g t0) /\
+                (t0 <> t_id t -> unread c (nrm x (get_ts (reopen c s') t0)) = skipn (l_del (lget g t0)) (l_app (lget g t0))) /\
+                unread c (nrm x (get_ts (reopen c s') (t_id t))) = skipn (if (d <? length A)%nat then S d else d) A).
+Print Assumptions c09_strict_crash_inside_read.
+Print Assumptions c09_strict_crash_inside_batch_read.
